@@ -741,6 +741,9 @@ fn run(case: &Case, out: &mut Out) {
                         }
                     }
                 }
+                if request && back == 1 && o.iter().any(|(k, _)| eq_nc(k, b"host")) {
+                    out.viol("two-host-lines", "a Host field reaches the HTTP/1.1 backend next to the Host line written from the authority");
+                }
                 if back == 2 {
                     for (k, v) in o.iter().chain(fwd.trailers.iter()) {
                         if CONN_SPECIFIC.iter().any(|n| eq_nc(k, n)) || (eq_nc(k, b"te") && !eq_nc(v, b"trailers")) {
